@@ -119,7 +119,7 @@ func pureArgs(r *rand.Rand, p *pools, pure map[string]bool) []argT {
 
 // genCase draws one program.
 //
-//	profile "direct": variables refer to variables directly; functions reach no variable (the proved domain, plus `overtake`)
+//	profile "direct": variables refer to variables directly; functions reach no variable (the proved domain; before the repair of F15 also the class `overtake`: shuffled declaration orders keep exercising it)
 //	profile "all":    every construct (dependencies through functions and methods, multi-value and paired
 //	                  declarations, variables without value, shadowing, field keys)
 //	order   "decl":   declared in the hidden true order (no forward reference)
